@@ -42,7 +42,9 @@ class C08(scen.WorldProp):
                     bells = [b for b in bells if b not in (1, 2)]
                     j = rng.randint(0, len(bells))
                     bells[j:j] = [1, 2]
-                spec = {"type": "plainhunt", "stage": k, "start_row": "".join(gens.BELLS[b - 1] for b in bells)}
+                # (the method may be on fewer bells than the start row names: the others cover where the row put them)
+                st = rng.choice([k, k, max(3, k - 1), max(3, k - 2)])
+                spec = {"type": "plainhunt", "stage": min(st, k), "start_row": "".join(gens.BELLS[b - 1] for b in bells)}
             ps = 60
             I = scen.interval(ps, N)
             row_t = I * (N + 0.5)
